@@ -173,7 +173,7 @@ def run(ctx):
     n_samples = ctx.pick(1000, 20000)
     for idx, e in gen_samples(sub_seed, n_samples):
         c = make_case(f"sample#{idx}", "sample", e, None, sample_index=idx, srepr=sympy.srepr(e))
-        c["vkey"] = f"C18:expr:{c['s']}"
+        c["vkey"] = f"C18:expr:{c['s']}" if c["s"] is not None else f"C18:expr-raises:{sympy.srepr(e)[:300]}"
         cases.append(c)
     ctx.log(f"{len(cases)} cases built")
 
@@ -337,26 +337,6 @@ def validate(ctx, cases):
             "lemma": (c["lemma"].statement[:600] if c.get("lemma") else c["wf"].statement[:300]), "status": c["status"]})
 
 
-def dev_validate(ctx, cases):
-    sem = [c for c in cases if c["sides"] is not None]
-    rc.parse_pass(ctx, "c18", PARSE_FN, sem, preamble=rc.PREAMBLE_TEX)
-    rc.classify_and_build("C18", sem, PARSE_FN)
-    for c in cases:
-        print("==", c["key"], c.get("status"), c.get("bad"), c.get("reason"))
-        print("   s:", c["s"])
-        print("   names:", c["names"])
-        if c.get("status") == "lemma":
-            print("   L:", c["lemma"].statement)
-    lem = [c for c in sem if c["status"] == "lemma"]
-    for c in lem:
-        lm = c["lemma"]
-        with open(f"/tmp/dev/{lm.name}.v", "w", encoding="utf-8") as fh:
-            fh.write(f"{rc.PREAMBLE_TEX}\nLemma {lm.name} : {lm.statement}.\nProof.\n{lm.proof}\nQed.\n")
-    res = coqrun.prove_lemmas(ctx, "c18", rc.PREAMBLE_TEX, [c["lemma"] for c in lem], per_file=1)
-    for c in lem:
-        print(c["key"], "->", res[c["lemma"].name][-700:])
-
-
 def replay(ctx, rep):
     item = rep.get("item", "")
     expr = None
@@ -385,6 +365,9 @@ def replay(ctx, rep):
     good, why = python_wellformed(c["s"])
     print("well-formed:", good, why)
     bad = 0 if good else 1
+    for raw, printed, why2 in c.get("mangled") or []:
+        print(f"symbol declared with display_latex {raw!r} is printed as {printed!r}: {why2}")
+        bad = 1
     res = coqrun.prove_lemmas(ctx, "c18_replay", rc.PREAMBLE_TEX, [wf_lemma(0, c)], per_file=1)
     print("wellformed_tex lemma:", res)
     if any(v != "ok" for v in res.values()):
@@ -398,22 +381,10 @@ def replay(ctx, rep):
         return 1
     print("parsed as  :", rc.aexpr_show(c["parsed"]))
     rc.classify_and_build("C18", [c], PARSE_FN)
+    bad = max(bad, rc.replay_values(c, rep.get("valuation")))
     if c["status"] != "lemma":
         print("status:", c["status"], c.get("bad"), c.get("reason"))
-        return 1 if c["status"] == "bad" else bad
-    val = rep.get("valuation")
-    if val:
-        val = {k: (complex(v) if isinstance(v, str) else v) for k, v in val.items()}
-        for o, p in zip(c["sides"], c["info"]["parsed_rtrees"]):
-            try:
-                a, b = rc.evaluate(o, val), rc.evaluate(p, val)
-            except Exception as e:  # pylint: disable=broad-except
-                print("evaluation failed:", e)
-                bad = 1
-                continue
-            print(f"at {val}: original = {a}   rendering = {b}   {'DIFFERENT' if not rc.close(a, b) else 'equal'}")
-            if not rc.close(a, b):
-                bad = 1
+        return 1 if (c["status"] == "bad" or bad) else 0
     res = coqrun.prove_lemmas(ctx, "c18_replay2", rc.PREAMBLE_TEX, [c["lemma"]], per_file=1)
     print("lemma:", res)
     return 1 if bad or any(v != "ok" for v in res.values()) else 0
